@@ -13,13 +13,13 @@ use std::io::{Cursor, Write};
 use std::panic::AssertUnwindSafe;
 use std::path::Path;
 use classes::*;
-use dukebox::storage::{BasicFileAttributes, ClassRepr, FileJar, Jar, JarEntry, JarEntryEnum, NamedMemJar, OpenedJar, ParsedJar, ParsedJarEntry, UnnamedMemJar};
+use dukebox::storage::{BasicFileAttributes, ClassRepr, FileJar, IsClass, IsOther, Jar, JarEntry, JarEntryEnum, NamedMemJar, OpenedJar, ParsedJar, ParsedJarEntry, UnnamedMemJar};
 use fbh::classfile::facts::ClassFacts;
 use fbh::gal::*;
 use fbh::prng::Rng;
-use fbh::report::{guarded, Report};
+use fbh::report::{crumb, guarded, Report};
 use fbh::Ctx;
-use zip::write::FileOptions;
+use zip::write::{ExtendedFileOptions, FileOptions};
 use zip::{CompressionMethod, DateTime, ZipWriter};
 
 pub const REPLAY_NOTE: &str = "how to read the jars below: every entry is written into a zip archive (zip crate; `deflate` = CompressionMethod::Deflated, else Stored) or put into a ParsedJar, as `route` says (Unnamed/Named = UnnamedMemJar/NamedMemJar, File = FileJar on disk, Parsed = ParsedJar); Class(AClass) is built by harness/src/bin/c13/classes.rs to_duke and written by duke::write_class; an attribute (name, seed, len) has the bytes noise(seed, len) (xorshift64*, classes.rs); long byte strings are shown as <length, fnv64>, `origin` says how they are made";
@@ -54,9 +54,13 @@ pub struct AEntry {
 	pub deflate: bool,
 	/// how the bytes of a long `Other` / `RawClass` content are made (empty for literal contents)
 	pub origin: String,
+	/// zip archives only: an Info-ZIP extended-timestamp extra field (0x5455) with these flags (bit 0 mtime,
+	/// bit 1 atime, bit 2 ctime) and times; the zip crate's writer refuses reserved header ids, so the field
+	/// is written under the id 0xE57A and the id is patched in the finished archive (build_zip)
+	pub ext: Option<(u8, [u32; 3])>,
 }
 impl AEntry {
-	pub fn new(name: &str, time: (u16, u8, u8, u8, u8, u8), content: AContent) -> AEntry { AEntry { name: name.to_owned(), time, content, parsed_repr: false, deflate: false, origin: String::new() } }
+	pub fn new(name: &str, time: (u16, u8, u8, u8, u8, u8), content: AContent) -> AEntry { AEntry { name: name.to_owned(), time, content, parsed_repr: false, deflate: false, origin: String::new(), ext: None } }
 }
 pub type AJar = Vec<AEntry>;
 /// the four implementations of dukebox::storage::Jar; the first three are zip archives read through
@@ -90,17 +94,38 @@ fn class_bytes(c: &AClass) -> Result<Vec<u8>, String> {
 	guarded(AssertUnwindSafe(|| { let mut b = Vec::new(); duke::write_class(&mut b, &k).map(|()| b).map_err(|e| format!("{e:#}")) })).and_then(|x| x)
 }
 
+const EXT_PLACEHOLDER: [u8; 2] = [0x7A, 0xE5];
+const EXT_TIMESTAMP: [u8; 2] = [0x55, 0x54];
+fn ext_field(flags: u8, t: &[u32; 3]) -> Vec<u8> {
+	let mut d = vec![flags];
+	for (i, x) in t.iter().enumerate() { if flags & (1 << i) != 0 { d.extend_from_slice(&x.to_le_bytes()); } }
+	d
+}
 fn build_zip(j: &AJar) -> anyhow::Result<Vec<u8>> {
 	let mut w = ZipWriter::new(Cursor::new(Vec::new()));
+	let mut patterns: Vec<Vec<u8>> = vec![];
 	for e in j {
-		let opts = FileOptions::<()>::default().compression_method(if e.deflate { CompressionMethod::Deflated } else { CompressionMethod::Stored }).last_modified_time(dt(e.time));
+		let mut opts = FileOptions::<ExtendedFileOptions>::default().compression_method(if e.deflate { CompressionMethod::Deflated } else { CompressionMethod::Stored }).last_modified_time(dt(e.time));
+		if let Some((flags, t)) = &e.ext {
+			let d = ext_field(*flags, t);
+			opts.add_extra_data(u16::from_le_bytes(EXT_PLACEHOLDER), &d, false)?;
+			let mut p = EXT_PLACEHOLDER.to_vec(); p.extend_from_slice(&(d.len() as u16).to_le_bytes()); p.extend_from_slice(&d);
+			patterns.push(p);
+		}
 		match &e.content {
 			AContent::Dir => w.add_directory(e.name.as_str(), opts)?,
 			AContent::Other(d) | AContent::RawClass(d) => { w.start_file(e.name.as_str(), opts)?; w.write_all(d)?; }
 			AContent::Class(c) => { let b = class_bytes(c).map_err(|e| anyhow::anyhow!(e))?; w.start_file(e.name.as_str(), opts)?; w.write_all(&b)?; }
 		}
 	}
-	Ok(w.finish()?.into_inner())
+	let mut z = w.finish()?.into_inner();
+	// give the extra fields their real header id: every occurrence of <placeholder id, length, data> (local and
+	// central header); the extra fields are not covered by any checksum
+	for p in patterns {
+		let mut i = 0;
+		while i + p.len() <= z.len() { if z[i..i + p.len()] == p[..] { z[i] = EXT_TIMESTAMP[0]; z[i + 1] = EXT_TIMESTAMP[1]; i += p.len(); } else { i += 1; } }
+	}
+	Ok(z)
 }
 
 fn build_parsed(j: &AJar) -> anyhow::Result<ParsedJar<ClassRepr, Vec<u8>>> {
@@ -141,6 +166,7 @@ fn prepare(j: &AJar, kind: JarKind, attrs: &[BasicFileAttributes], it: &mut Inte
 				PContent::Class { parsed_repr, raw: it.id(&bytes), bytes, parsed, facts }
 			}
 		};
+		if kind != JarKind::Parsed && e.ext.is_some() { EXT_SEEN.fetch_add(if a.mtime.is_some() { 1 } else { 1 << 32 }, std::sync::atomic::Ordering::Relaxed); }
 		out.push(PEntry { name: e.name.clone(), attr: it.text(format!("{a:?}")), content });
 	}
 	Ok(out)
@@ -165,7 +191,23 @@ fn project_out(j: &ParsedJar<ClassRepr, Vec<u8>>, it: &mut Interner) -> Vec<OEnt
 	}).collect()
 }
 
-pub struct Merged { pub client: Vec<PEntry>, pub server: Vec<PEntry>, pub outcome: Outcome, pub reopened: Option<Vec<(String, Option<Vec<u8>>)>> }
+pub struct Merged { pub client: Vec<PEntry>, pub server: Vec<PEntry>, pub outcome: Outcome, pub reopened: Option<Vec<(String, Option<Vec<u8>>)>>,
+	/** complaints of the look-ups by name (OpenedJar::by_name on the merge result and on the re-opened written jar) */ pub lookups: Vec<String>,
+	/** how the written jar was made: to_mem / put_to_file */ pub written_as: &'static str }
+
+/// OpenedJar::by_name on `o`: every name of `present` is found under that very name, none of `absent` is
+fn lookups<O: OpenedJar>(o: &mut O, what: &str, present: &[String], absent: &[String], bad: &mut Vec<String>) {
+	for n in present {
+		match OpenedJar::by_name(o, n) {
+			Ok(Some(e)) => { let got = JarEntry::name(&e).to_owned(); if got != *n { bad.push(format!("{what}: by_name({n:?}) returns the entry {got:?}")); } }
+			Ok(None) => bad.push(format!("{what}: by_name({n:?}) finds nothing, the entry is listed")),
+			Err(e) => bad.push(format!("{what}: by_name({n:?}) fails: {e:#}")),
+		}
+	}
+	for n in absent {
+		match OpenedJar::by_name(o, n) { Ok(None) => {} Ok(Some(_)) => bad.push(format!("{what}: by_name({n:?}) finds an entry that is not listed")), Err(e) => bad.push(format!("{what}: by_name({n:?}) fails: {e:#}")) }
+	}
+}
 
 enum BuiltJar { Unnamed(UnnamedMemJar), Named(NamedMemJar), File(FileJar), Parsed(ParsedJar<ClassRepr, Vec<u8>>) }
 macro_rules! with_jar {
@@ -199,40 +241,67 @@ pub fn run_merge(client: &AJar, server: &AJar, route: Route, reopen: bool, tmp: 
 	let sa = with_jar!(&sj, j => read_attrs(j))?;
 	let pc = prepare(client, route.c, &ca, &mut it)?;
 	let ps = prepare(server, route.s, &sa, &mut it)?;
+	// the merge has no recursion over its input, but its loops do not obviously end (merge_preserve_order's
+	// outer loop relies on the no_change break): leave the input behind in case the process has to be killed
+	crumb(&format!("property C13\n{REPLAY_NOTE}\ndukebox::merge::merge did not return (harness killed) on\nroute: {route:?}\nclient jar:\n{}\nserver jar:\n{}\n",
+		client.iter().map(|e| format!("  {e:?}")).collect::<Vec<_>>().join("\n"), server.iter().map(|e| format!("  {e:?}")).collect::<Vec<_>>().join("\n")));
 	let res = with_jar!(cj, c => with_jar!(sj, s => guarded(AssertUnwindSafe(|| dukebox::merge::merge(c, s)))));
 	let mut reopened = None;
+	let mut lookup_bad = vec![];
+	let mut written_as = "";
 	let outcome = match res {
 		Err(_) => Outcome::Panic,
 		Ok(Err(_)) => Outcome::Fail,
 		Ok(Ok(j)) => {
 			let o = project_out(&j, &mut it);
+			let present: Vec<String> = o.iter().map(|e| e.name.clone()).collect();
+			let absent: Vec<String> = client.iter().chain(server.iter()).map(|e| e.name.clone()).filter(|n| !present.contains(n)).chain(["no/such/entry".to_owned(), String::new()]).collect();
+			if let Ok(mut oj) = j.open() { lookups(&mut oj, "merged jar", &present, &absent, &mut lookup_bad); }
 			if reopen {
-				// ParsedJar::write + the zip reader: what is on disk after the merge
-				if let Ok(Ok(mem)) = guarded(AssertUnwindSafe(|| j.to_mem())) {
-					if let Ok(mut z) = mem.open() {
-						let keys: Vec<_> = z.entry_keys().collect();
-						let mut v = vec![];
-						for k in keys {
-							if let Ok(e) = z.by_entry_key(k) {
-								let name = e.name().to_owned();
-								let data = match e.to_jar_entry_enum() {
-									Ok(JarEntryEnum::Dir) => None,
-									Ok(JarEntryEnum::Class(c)) => Some(c.0),
-									Ok(JarEntryEnum::Other(d)) => Some(d),
-									Err(_) => Some(vec![]),
-								};
-								v.push((name, data));
-							}
+				// ParsedJar::write + the zip reader: what is on disk after the merge — through to_mem or put_to_file
+				fn walk<O: OpenedJar>(z: &mut O, present: &[String], absent: &[String]) -> (Vec<(String, Option<Vec<u8>>)>, Vec<String>) {
+					let (mut v, mut bad) = (vec![], vec![]);
+					let keys: Vec<_> = z.entry_keys().collect();
+					for k in keys {
+						if let Ok(e) = z.by_entry_key(k) {
+							let name = JarEntry::name(&e).to_owned();
+							let data = match e.to_jar_entry_enum() {
+								Ok(JarEntryEnum::Dir) => None,
+								Ok(JarEntryEnum::Class(c)) => guarded(AssertUnwindSafe(|| c.write().ok().map(|b| b.as_ref().to_vec()))).ok().flatten().or(Some(vec![])),
+								Ok(JarEntryEnum::Other(d)) => Some(d.get_data().to_vec()),
+								Err(_) => Some(vec![]),
+							};
+							v.push((name, data));
 						}
-						reopened = Some(v);
+					}
+					lookups(z, "written jar re-opened", present, absent, &mut bad);
+					(v, bad)
+				}
+				let n = WRITES.fetch_add(1, std::sync::atomic::Ordering::Relaxed);
+				if n % 3 == 2 {
+					written_as = "put_to_file";
+					let path = tmp.join("merged.jar");
+					let _ = std::fs::create_dir_all(tmp);
+					if let Ok(Ok(_)) = guarded(AssertUnwindSafe(|| j.put_to_file(&path).map(|_| ()))) {
+						let fj = FileJar { path: path.clone() };
+						if let Ok(mut z) = fj.open() { let (v, b) = walk(&mut z, &present, &absent); reopened = Some(v); lookup_bad.extend(b); }
+					}
+					let _ = std::fs::remove_file(&path);
+				} else {
+					written_as = "to_mem";
+					if let Ok(Ok(mem)) = guarded(AssertUnwindSafe(|| j.to_mem())) {
+						if let Ok(mut z) = mem.open() { let (v, b) = walk(&mut z, &present, &absent); reopened = Some(v); lookup_bad.extend(b); }
 					}
 				}
 			}
 			Outcome::Ok(o)
 		}
 	};
-	Ok(Merged { client: pc, server: ps, outcome, reopened })
+	Ok(Merged { client: pc, server: ps, outcome, reopened, lookups: lookup_bad, written_as })
 }
+static WRITES: std::sync::atomic::AtomicUsize = std::sync::atomic::AtomicUsize::new(0);
+/// zip entries written with an extended timestamp: low half = read back with an mtime, high half = without
+static EXT_SEEN: std::sync::atomic::AtomicU64 = std::sync::atomic::AtomicU64::new(0);
 
 // ---------------------------------------------------------------- Gallina
 /// resource bytes for the model, which only copies and compares them: short ones literally, long ones
@@ -437,8 +506,10 @@ fn oracle(r: &mut Report, client: &AJar, server: &AJar, route: Route, m: &Merged
 	let identical: HashMap<&str, &Vec<u8>> = m.client.iter().filter_map(|c| match (&c.content, m.server.iter().find(|s| s.name == c.name).map(|s| &s.content)) {
 		(PContent::Class { bytes: b1, .. }, Some(PContent::Class { bytes: b2, .. })) if b1 == b2 => Some((c.name.as_str(), b1)),
 		_ => None }).collect();
+	bad.extend(m.lookups.iter().cloned());
 	if let Some(re) = &m.reopened {
 		r.count("reopened:written jars re-opened");
+		r.count(&format!("reopened:written by {}", m.written_as));
 		let rn: Vec<&str> = re.iter().map(|x| x.0.as_str()).collect();
 		let (mut a, mut b) = (rn.clone(), got.clone()); a.sort(); b.sort();
 		if a != b { bad.push(format!("written jar re-opened has entries {rn:?}, the merge result {got:?}")); }
@@ -501,6 +572,7 @@ pub fn mpo_via_merge(kind: usize, a: &[u32], b: &[u32]) -> Result<Vec<u32>, Stri
 		j
 	};
 	let (ja, jb) = (mk(a, "c"), mk(b, "s"));
+	crumb(&format!("property C13\ndukebox::merge::merge did not return (harness killed): two classes net/minecraft/A that differ in their {} (numbers n stand for I<n> / f<n>:I / m<n>()V), merged as one-entry ParsedJars\nclient: {a:?}\nserver: {b:?}\n", ["interfaces", "fields", "methods"][kind.min(2)]));
 	let m = match guarded(AssertUnwindSafe(|| dukebox::merge::merge(ja, jb))) { Err(p) => return Err(format!("panic: {p}")), Ok(Err(e)) => return Err(format!("Err: {e:#}")), Ok(Ok(m)) => m };
 	let Some(ParsedJarEntry { content: JarEntryEnum::Class(ClassRepr::Parsed { class }), .. }) = m.entries.get("net/minecraft/A.class") else { return Err("no merged class".into()) };
 	let num = |s: Vec<u32>| -> u32 { s[1..].iter().fold(0u32, |acc, &d| acc * 10 + (d - '0' as u32)) };
@@ -522,6 +594,30 @@ fn nodup_lists(alpha: &[u32], n: usize) -> Vec<Vec<u32>> {
 	out
 }
 
+fn all_lists(alpha: &[u32], n: usize) -> Vec<Vec<u32>> {
+	// same enumeration order as C13/Run.v all_lists
+	if n == 0 { return vec![vec![]]; }
+	let mut out = vec![vec![]];
+	let shorter = all_lists(alpha, n - 1);
+	for &x in alpha { for l in &shorter { let mut v = vec![x]; v.extend(l); out.push(v); } }
+	out
+}
+
+/// Judged on the implementation, for arbitrary lists: the merged list has exactly the elements of the two
+/// lists (a class file cannot repeat an interface, so how OFTEN a repeated element comes out is left to the
+/// comparison with the model, C13_mpo_any_lists, and so is the order of a scrambled pair); duplicate-free
+/// lists are judged by mpo_oracle / check_keys
+fn any_lists_oracle(r: &mut Report, a: &[u32], b: &[u32], m: &[u32]) {
+	let mut bad = vec![];
+	for &x in a.iter().chain(b.iter()) { if !m.contains(&x) { bad.push(format!("{x} of an input is missing from the merged list")); break; } }
+	for &x in m { if !a.contains(&x) && !b.contains(&x) { bad.push(format!("{x} in the merged list is in neither input")); break; } }
+	if nodup(a) && nodup(b) && !nodup(m) { bad.push("an element appears twice in the merged list".to_owned()); }
+	if !bad.is_empty() {
+		r.violation(format!("merge of two interface lists (duplicates allowed): {}", bad[0]),
+			format!("property C13\ntwo classes net/minecraft/A that differ in their interfaces (numbers n stand for I<n>), merged with dukebox::merge::merge as one-entry jars\nclient: {a:?}\nserver: {b:?}\nmerged: {m:?}\n{}\n", bad.join("\n")));
+	}
+}
+
 fn mpo_oracle(r: &mut Report, kind: usize, a: &[u32], b: &[u32], m: &[u32]) {
 	let mut bad = vec![];
 	check_keys(["interfaces", "fields", "methods"][kind], a, b, m, &mut bad);
@@ -536,7 +632,12 @@ pub fn run(ctx: &Ctx) -> anyhow::Result<Report> {
 	r.shard_size = if ctx.thorough { 250 } else { 60 };
 	let mut rng = Rng::new(ctx.seed);
 	let sweep_n = if ctx.thorough { 5 } else { 4 };
-	r.rule = format!("(1) exhaustive: every ordered pair of duplicate-free lists over {sweep_n} symbols (all lengths) as the interface lists of two otherwise equal classes, merged through dukebox::merge::merge; the model enumerates the same pairs inside Coq. (2) random list pairs up to length 12 that are interleavings of a common order, prefixes, suffixes, permutations, disjoint, equal, or arbitrary (also with duplicates, outside the theorems' hypothesis), through interfaces, fields and methods. (3) generated jar pairs through all four Jar implementations, also mixed (zip archives as UnnamedMemJar, NamedMemJar and FileJar on disk, entries stored or DEFLATE-compressed; ParsedJars): disjoint/identical/overlapping entry sets over classes (net/minecraft, top-level, library packages), resources equal or different, directories, META-INF with manifest, .SF/.RSA/.DSA files; class pairs identical, differing in members/interfaces/annotations/inner classes/permitted subclasses/record components; every second merged jar is also written (ParsedJar::to_mem), re-opened, and its merged classes read by the harness' independent class-file parser. (4) separate streams outside the hypotheses: differing version/access/deprecated/synthetic flags (assert panics), differing super class or class name (Err), differing inner-class records, duplicate member keys, unreadable class bytes, entry kind mismatch. (5) zip archives with entries of 5 bytes to 200 KiB (sizes around 32 KiB and 64 KiB), incompressible (xorshift noise), compressible, stored or deflated: resources both sides have (equal / different) or one side has, classes carrying the bytes in unknown attributes (identical, one-sided, differing); byte-exact pass-through is checked against the generator's ground truth, in the merge result and in the written jar. (6) real classes in two builds: javac corpus classes (incl. records and sealed classes, invokedynamic, switches, frames) against duke's re-write of them (other bytes, same tree), against builds lacking some members/interfaces, and generated classes (fbh::classfile::gen) assembled in two constant-pool/attribute/encoding layouts, whole or trimmed; the merged class is compared as whole-class facts with both inputs and, written and re-read by the independent strict parser, with the merged tree. A case is non-trivial when at least one list/jar is non-empty and the merge returned a jar; distinct by printed case.");
+	r.rule = format!("(0) layout: the harness' order of the fields of duke's ClassFile / Field / Method it projects one by one, against the regenerated tables; rule sweep: ~600 entry names (12 prefixes x 4 stems x 12 suffixes around META-INF/, net/minecraft/, net/minecraftx/, net/minecraft.class, .SF/.RSA/.DSA/.sf, .class/.CLASS/.classs/.class.txt, trailing '/' and '\\', default package, multi-byte and non-BMP stems, plus the generators' names) as resources of a jar merged once as the client and once as the server of an empty jar — what the implementation keeps/drops is compared with the rules as the property reads them (oracle) and with the model's regenerated predicates, and the kind a real zip archive's entry of that name has with zip_kind; a zip archive with a damaged local header (observed). (1) exhaustive: every ordered pair of duplicate-free lists over {sweep_n} symbols (all lengths) as the interface lists of two otherwise equal classes, merged through dukebox::merge::merge; the model enumerates the same pairs inside Coq; (1b) the same over ALL lists with duplicates over 3 symbols up to length 3 (1600 pairs). (2) random list pairs up to length 12 (every 400th pair: lists of 254..300 elements, interleaved or scrambled by swaps) that are interleavings of a common order, prefixes, suffixes, permutations, disjoint, equal, or arbitrary (also with duplicates, outside the theorems' hypothesis), through interfaces, fields and methods. (3) generated jar pairs through all four Jar implementations, also mixed (zip archives as UnnamedMemJar, NamedMemJar and FileJar on disk, entries stored or DEFLATE-compressed; ParsedJars): disjoint/identical/overlapping entry sets over classes (net/minecraft, top-level, library packages), resources equal or different, directories, META-INF with manifest, .SF/.RSA/.DSA files; class pairs identical, differing in members/interfaces/annotations/inner classes/permitted subclasses/record components; every second merged jar is also written (ParsedJar::to_mem, every third of these ParsedJar::put_to_file + FileJar), re-opened, every kept name looked up by OpenedJar::by_name in the merge result and in the re-opened archive (every dropped name must not be found), and its merged classes read by the harness' independent class-file parser; every sixth zip entry carries an Info-ZIP extended timestamp (mtime / +atime / +ctime). (4) separate streams outside the hypotheses: differing version/access/deprecated/synthetic flags (assert panics), differing super class or class name (Err), differing inner-class records, duplicate member keys, unreadable class bytes, entry kind mismatch. (5) zip archives with entries of 5 bytes to 200 KiB (sizes around 32 KiB and 64 KiB), incompressible (xorshift noise), compressible, stored or deflated: resources both sides have (equal / different) or one side has, classes carrying the bytes in unknown attributes (identical, one-sided, differing); byte-exact pass-through is checked against the generator's ground truth, in the merge result and in the written jar. (6) real classes in two builds: javac corpus classes (incl. records and sealed classes, invokedynamic, switches, frames) against duke's re-write of them (other bytes, same tree), against builds lacking some members/interfaces, and generated classes (fbh::classfile::gen) assembled in two constant-pool/attribute/encoding layouts, whole or trimmed; the merged class is compared as whole-class facts with both inputs and, written and re-read by the independent strict parser, with the merged tree. A case is non-trivial when at least one list/jar is non-empty and the merge returned a jar; distinct by printed case.");
+
+	// 0. the layout of the opaque components, and the string rules of the entry loop name by name
+	r.case("layout", format!("CLayout {} {} {}", glist(REST_CLASS.iter().map(|n| gstr(&cps_str(n)))), glist(REST_FIELD.iter().map(|n| gstr(&cps_str(n)))), glist(REST_METHOD.iter().map(|n| gstr(&cps_str(n))))));
+	rule_sweep(&mut r);
+	damaged_zip_probe(&mut r);
 
 	// 1. sweep
 	let alpha: Vec<u32> = (1..=sweep_n as u32).collect();
@@ -551,15 +652,28 @@ pub fn run(ctx: &Ctx) -> anyhow::Result<Report> {
 	r.count_n("sweep_pairs", (lists.len() * lists.len()) as u64);
 	r.case("mpo-sweep", format!("CMpoSweep {} {} {}", gnums(alpha.iter().map(|&x| x as u64)), sweep_n, glist(results.iter().map(|m| gnums(m.iter().map(|&x| x as u64))))));
 	r.exhaustive = true;
+	// 1b. the same over all lists with duplicates (3 symbols, length <= 3)
+	let alpha3: Vec<u32> = vec![1, 2, 3];
+	let dl = all_lists(&alpha3, 3);
+	let mut results = vec![];
+	for a in &dl { for b in &dl {
+		match mpo_via_merge(0, a, b) {
+			Ok(m) => { any_lists_oracle(&mut r, a, b, &m); r.eval_distinct(!(a.is_empty() && b.is_empty())); results.push(m); }
+			Err(e) => { r.violation(format!("merge of two classes differing only in interfaces failed: {e}"), format!("property C13\nclient interfaces {a:?}\nserver interfaces {b:?}\n{e}\n")); results.push(vec![]); }
+		}
+	} }
+	r.count_n("sweep_pairs_with_duplicates", (dl.len() * dl.len()) as u64);
+	r.case("mpo-sweep-dup", format!("CMpoSweepDup {} 3 {}", gnums(alpha3.iter().map(|&x| x as u64)), glist(results.iter().map(|m| gnums(m.iter().map(|&x| x as u64))))));
 
 	// 2. random list pairs
 	let n = if ctx.thorough { 20000 } else { 2100 };
 	for i in 0..n {
-		let (mode, a, b) = gen::list_pair(&mut rng);
+		let (mode, a, b) = if i % 400 == 399 { gen::long_list_pair(&mut rng) } else { gen::list_pair(&mut rng) };
 		let kind = i % 3;
 		match mpo_via_merge(kind, &a, &b) {
 			Ok(m) => {
 				mpo_oracle(&mut r, kind, &a, &b, &m);
+				if kind == 0 { any_lists_oracle(&mut r, &a, &b, &m); }
 				let term = format!("CMpo {} {} {}", gnums(a.iter().map(|&x| x as u64)), gnums(b.iter().map(|&x| x as u64)), gnums(m.iter().map(|&x| x as u64)));
 				r.eval(&format!("{kind} {term}"), !(a.is_empty() && b.is_empty()));
 				r.count(&format!("lists:{mode}"));
@@ -572,7 +686,7 @@ pub fn run(ctx: &Ctx) -> anyhow::Result<Report> {
 
 	// 3./4. jars
 	let tmp = ctx.out.join("jars");
-	let n = if ctx.thorough { 6000 } else { 640 };
+	let n = if ctx.thorough { 6000 } else { 600 };
 	for i in 0..n {
 		let twist = if i % 4 == 3 { gen::Twist::pick(&mut rng) } else { gen::Twist::None };
 		let route = gen::gen_route(&mut rng);
@@ -595,7 +709,7 @@ pub fn run(ctx: &Ctx) -> anyhow::Result<Report> {
 	// 6. real classes in two builds (every merged jar written and re-opened)
 	let corpus = real::load_corpus();
 	r.count_n("real:corpus classes usable (duke reads them, <= 6000 bytes)", corpus.all.len() as u64);
-	r.count_n("real:of these records / sealed classes", corpus.featured.len() as u64);
+	r.count_n("real:of these records / sealed classes", corpus.featured.len() as u64); r.count_n("real:of these with type annotations or module data", corpus.typed.len() as u64);
 	let n = if ctx.thorough { 900 } else { 110 };
 	for _ in 0..n {
 		let route = gen::gen_route(&mut rng);
@@ -605,12 +719,97 @@ pub fn run(ctx: &Ctx) -> anyhow::Result<Report> {
 		jar_case(&mut r, &format!("realjar-{}", route.name()), "real", true, &client, &server, route, true, &tmp);
 	}
 	let _ = std::fs::remove_dir_all(&tmp);
+	r.count_n("class pairs generated without opaque-field variants (duke does not round-trip the combination)", gen::PLAINER.load(std::sync::atomic::Ordering::Relaxed) as u64);
+	let ext = EXT_SEEN.load(std::sync::atomic::Ordering::Relaxed);
+	r.count_n("zip entries with an extended timestamp extra field: mtime read by the implementation", ext & 0xffff_ffff);
+	r.count_n("zip entries with an extended timestamp extra field: NOT seen by the implementation", ext >> 32);
 	let panics: u64 = r.dist.iter().filter(|(k, _)| k.starts_with("outcome:") && k.ends_with(":panic")).map(|(_, v)| *v).sum();
 	let errs: u64 = r.dist.iter().filter(|(k, _)| k.starts_with("outcome:") && k.ends_with(":err")).map(|(_, v)| *v).sum();
 	r.notes.push(format!("observed outside the hypotheses (not violations of C13): {panics} merges panicked (assert_eq!/panic! on differing version, access, deprecated/synthetic flags, inner-class records), {errs} returned Err (differing super class or class name, unreadable class bytes, entry kind mismatch); the model predicts each of these outcomes (Panic/Fail) and is compared on them"));
 	r.notes.push("observed, outside the property text (counted under observed:* in the distribution; the model follows the code here, but neither the oracle nor the comparison with the model demands it): Err vs panic for a merge that yields no jar; entry order of the merged jar (client's entries, then server-only ones); entry attributes (the client's); a resource differing between the sides is taken from the client with a warning on stderr; META-INF/*.DSA and *.EC are kept, only *.SF and *.RSA are dropped".to_owned());
 	r.notes.push("a merged class keeps the client's record components and the union of both sides' permitted subclasses (fix: merging two versions of a class keeps its record components and permitted subclasses); before that repair Records$Point merged with its own duke re-write lost its Record attribute".to_owned());
 	Ok(r)
+}
+
+/// The skip rules and the zip reader's kind test, observed on the implementation name by name: a jar
+/// holding every name of gen::rule_names() as a resource is merged once as the client (with an empty
+/// server) and once as the server (with an empty client) — a name missing from the first result is
+/// skipped for every side (signature file), one missing only from the second is skipped as a bundled
+/// server library; the kind is what `impl JarEntry for ZipFile` says for a zip entry of that name.
+fn rule_sweep(r: &mut Report) {
+	let names = gen::rule_names();
+	let mk = || -> ParsedJar<ClassRepr, Vec<u8>> {
+		let mut j = ParsedJar { entries: indexmap::IndexMap::new() };
+		for n in &names { j.entries.insert(n.clone(), ParsedJarEntry { attr: BasicFileAttributes::default(), content: JarEntryEnum::Other(b"x".to_vec()) }); }
+		j
+	};
+	let empty = || -> ParsedJar<ClassRepr, Vec<u8>> { ParsedJar { entries: indexmap::IndexMap::new() } };
+	crumb("property C13\ndukebox::merge::merge did not return (harness killed): the rule sweep, a ParsedJar with one resource per name of harness/src/bin/c13/gen.rs rule_names() against an empty jar\n");
+	let as_client = guarded(AssertUnwindSafe(|| dukebox::merge::merge(mk(), empty()))).ok().and_then(|x| x.ok());
+	let as_server = guarded(AssertUnwindSafe(|| dukebox::merge::merge(empty(), mk()))).ok().and_then(|x| x.ok());
+	let (Some(ac), Some(asv)) = (as_client, as_server) else {
+		r.violation("merge of a jar of resources with an empty jar did not return a jar".into(), format!("property C13\nclient: one resource b\"x\" per name of {names:?}\nserver: empty (and the other way round)\n"));
+		return;
+	};
+	// kinds: one zip archive with all names (a name the zip writer refuses is left out)
+	let mut kinds: HashMap<String, u64> = HashMap::new();
+	{
+		let mut w = ZipWriter::new(Cursor::new(Vec::new()));
+		for n in &names { let _ = w.start_file(n.as_str(), FileOptions::<()>::default().compression_method(CompressionMethod::Stored)); }
+		if let Ok(c) = w.finish() {
+			let mem = UnnamedMemJar { data: c.into_inner() };
+			if let Ok(mut z) = mem.open() {
+				let keys: Vec<_> = z.entry_keys().collect();
+				for k in keys {
+					if let Ok(e) = z.by_entry_key(k) {
+						let n = JarEntry::name(&e).to_owned();
+						let kind = match e.to_jar_entry_enum() { Ok(JarEntryEnum::Dir) => 0, Ok(JarEntryEnum::Class(_)) => 1, Ok(JarEntryEnum::Other(_)) => 2, Err(_) => 3 };
+						kinds.insert(n, kind);
+					}
+				}
+			}
+		}
+	}
+	let mut rows = vec![];
+	for n in &names {
+		let sig = !ac.entries.contains_key(n);
+		let lib = !sig && !asv.entries.contains_key(n);
+		let Some(&kind) = kinds.get(n) else { r.count("names:not storable in a zip archive"); continue };
+		r.eval(&format!("name {n:?}"), true);
+		r.count(&format!("names:{}{}", if sig { "signature file" } else if lib { "bundled library" } else { "kept" }, ["/dir", "/class", "/other", "/unreadable"][kind as usize]));
+		// the property oracle: the harness' own reading of "signature files and bundled server libraries"
+		let own_kind = if n.ends_with('/') || n.ends_with('\\') { 0 } else if n.ends_with(".class") { 1 } else { 2 };
+		if sig != is_signature(n) || lib != is_server_library(n) || (sig && asv.entries.contains_key(n)) || kind != own_kind {
+			r.violation(format!("entry name {n:?}: dukebox::merge::merge {} it, the rules (signature files META-INF/*.SF|*.RSA; bundled libraries = server-only *.class in a package outside net/minecraft/) say {}; zip entry kind {} (expected {})",
+					if sig { "drops" } else if lib { "drops (server side only)" } else { "keeps" }, if is_signature(n) { "signature file" } else if is_server_library(n) { "bundled library" } else { "keep" }, ["dir", "class", "other", "unreadable"][kind as usize], ["dir", "class", "other"][own_kind as usize]),
+				format!("property C13\nclient jar (ParsedJar): one resource {n:?} with the bytes b\"x\"; server jar: empty -> merged jar {} the entry\nclient jar: empty; server jar: the same resource -> merged jar {} the entry\na zip archive with a stored entry of that name: read as {}\n",
+					if ac.entries.contains_key(n) { "has" } else { "does not have" }, if asv.entries.contains_key(n) { "has" } else { "does not have" }, ["Dir", "Class", "Other", "an error"][kind as usize]));
+		}
+		rows.push(format!("({}, ({}, {}, {}))", gstr(&cps_str(n)), gbool(sig), gbool(lib), kind));
+	}
+	for chunk in rows.chunks(60) { r.case("names", format!("CNames {}", glist(chunk.iter().cloned()))); }
+}
+
+/// A zip archive with an intact central directory and a damaged local header: look-ups by name and the
+/// merge must report it (observed and counted; a zip container is not modelled)
+fn damaged_zip_probe(r: &mut Report) {
+	let mut w = ZipWriter::new(Cursor::new(Vec::new()));
+	let ok = w.start_file("a.txt", FileOptions::<()>::default().compression_method(CompressionMethod::Stored)).is_ok() && w.write_all(b"hello").is_ok();
+	let Ok(c) = w.finish() else { return };
+	if !ok { return; }
+	let mut z = c.into_inner();
+	z[0] ^= 0xff; // the local file header's signature
+	let mem = UnnamedMemJar { data: z.clone() };
+	crumb("property C13\na zip archive with one stored entry a.txt = b\"hello\" whose first byte (local header signature) is inverted: by_name / merge did not return\n");
+	match mem.open() {
+		Err(_) => r.count("damaged zip:open fails"),
+		Ok(mut o) => {
+			match guarded(AssertUnwindSafe(|| OpenedJar::by_name(&mut o, "a.txt").map(|x| x.is_some()))) { Ok(Err(_)) => r.count("damaged zip:by_name of the damaged entry is Err"), Ok(Ok(true)) => r.count("damaged zip:by_name finds the damaged entry"), Ok(Ok(false)) => r.count("damaged zip:by_name does not find the damaged entry"), Err(_) => r.count("damaged zip:by_name panics") }
+			match guarded(AssertUnwindSafe(|| OpenedJar::by_name(&mut o, "b.txt").map(|x| x.is_some()))) { Ok(Ok(false)) => r.count("damaged zip:by_name of an absent name is None"), _ => r.count("damaged zip:by_name of an absent name is not None") }
+		}
+	}
+	let empty: ParsedJar<ClassRepr, Vec<u8>> = ParsedJar { entries: indexmap::IndexMap::new() };
+	match guarded(AssertUnwindSafe(|| dukebox::merge::merge(UnnamedMemJar { data: z }, empty))) { Ok(Err(_)) => r.count("damaged zip:merge returns Err"), Ok(Ok(_)) => r.count("damaged zip:merge returns a jar"), Err(_) => r.count("damaged zip:merge panics") }
 }
 
 #[allow(clippy::too_many_arguments)]
@@ -644,6 +843,15 @@ fn stats(r: &mut Report, m: &Merged) {
 	for s in &m.server {
 		if let (Some(c), PContent::Class { bytes: b2, .. }) = (by.get(s.name.as_str()), &s.content) {
 			if let PContent::Class { bytes: b1, .. } = &c.content { r.count(if b1 == b2 { "class_pairs:identical" } else { "class_pairs:differing" }); }
+			// which rows of the regenerated tables the pair exercises: opaque fields in which the two versions differ
+			if let (PContent::Class { parsed: Some(pc), .. }, PContent::Class { parsed: Some(ps), .. }) = (&c.content, &s.content) {
+				for (i, n) in REST_CLASS.iter().enumerate() { if pc.rest.get(i) != ps.rest.get(i) { r.count(&format!("versions differ in opaque field:class {n}")); } }
+				for (what, names, lc, ls) in [("field", &REST_FIELD[..], &pc.fields, &ps.fields), ("method", &REST_METHOD[..], &pc.methods, &ps.methods)] {
+					for mc in lc.iter() { if let Some(ms) = ls.iter().find(|x| x.key() == mc.key()) {
+						for (i, n) in names.iter().enumerate() { if mc.rest.get(i) != ms.rest.get(i) { r.count(&format!("versions differ in opaque field:{what} {n}")); } }
+					} }
+				}
+			}
 		}
 	}
 	if let Outcome::Ok(o) = &m.outcome {
